@@ -115,6 +115,42 @@ def spec(r: Ref, builder):
     return nodes, edges
 
 
+def user_assembled_graph(ctx, r, instance, rng):
+    """A user's own builder: the complete agent-task graph assembled from the library's public
+    building blocks, with the job nodes (and the machine nodes) added in the user's own order.
+    Judged by payload: which operation / machine / job / global node is linked to which."""
+    from job_shop_lib.graphs import (JobShopGraph, Node, NodeType, add_global_node, add_job_global_edges,
+                                     add_machine_global_edges, add_operation_job_edges,
+                                     add_operation_machine_edges)
+    g = JobShopGraph(instance)
+    m_order = list(range(instance.num_machines)); rng.shuffle(m_order)
+    for m in m_order:
+        g.add_node(Node(node_type=NodeType.MACHINE, machine_id=m))
+    add_operation_machine_edges(g)
+    j_order = list(range(instance.num_jobs)); rng.shuffle(j_order)
+    for j in j_order:
+        g.add_node(Node(node_type=NodeType.JOB, job_id=j))
+    add_operation_job_edges(g)
+    add_global_node(g)
+    add_machine_global_edges(g)
+    add_job_global_edges(g)
+
+    def payload(node):
+        t = node.node_type.name
+        return (t, node.operation.operation_id if t == "OPERATION" else
+                node.machine_id if t == "MACHINE" else node.job_id if t == "JOB" else None)
+    got = {(payload(g.nodes[u]), payload(g.nodes[v])) for u, v in g.graph.edges()}
+    wn, we = spec(r, "complete")
+    want = {(wn[u], wn[v]) for (u, v) in we
+            if not (wn[u][0] == wn[v][0] and wn[u][0] in ("MACHINE", "JOB", "OPERATION"))}
+    got = {e for e in got if not (e[0][0] == e[1][0])}
+    ctx.count("user_assembled_graphs_checked")
+    if got != want:
+        ctx.violation("c16_user_assembled_graph_links_wrong_nodes",
+                      {"machine_node_order": m_order, "job_node_order": j_order,
+                       "missing": sorted(map(str, want - got))[:6], "unexpected": sorted(map(str, got - want))[:6]})
+
+
 def builders():
     from job_shop_lib.graphs import (build_agent_task_graph, build_agent_task_graph_with_jobs,
                                      build_complete_agent_task_graph, build_disjunctive_graph)
@@ -247,6 +283,8 @@ def run_case(ctx, case):
     r = Ref(inst)
     if case["kind"] == "builders":
         instance = gen.build(inst)
+        if case["seed"] % 5 == 3:
+            user_assembled_graph(ctx, r, instance, random.Random(case["seed"]))
         built = []
         for name, b in builders().items():
             g = b(instance)
@@ -334,6 +372,20 @@ def run_case(ctx, case):
     if not feasibility_errors(r, schedule_triples(D), True):
         check_solved(ctx, r, D, D.makespan(), False, "hand-delayed")
         ctx.count("solved_delayed")
+        if not r.flexible and case["seed"] % 3 == 1:
+            # the delayed schedule is stored with its makespan in the metadata (as solvers do) and
+            # restored from the dictionary form, which re-dispatches it: the graph of the restored
+            # schedule is judged against the restored content
+            D.metadata["makespan"] = D.makespan()
+            RT = Schedule.from_dict(**D.to_dict())
+            content_mk = max(so.end_time for lst in RT.schedule for so in lst)
+            ctx.count("solved_after_a_dictionary_round_trip_with_recorded_makespan")
+            if RT.makespan() != content_mk:
+                ctx.violation("c16_makespan_of_restored_schedule_differs_from_its_content",
+                              {"makespan()": RT.makespan(), "latest_end": content_mk,
+                               "recorded_in_metadata": RT.metadata.get("makespan")})
+            else:
+                check_solved(ctx, r, RT, content_mk, False, "restored from the dictionary form of a delayed schedule")
     if case.get("cpsat") and not r.flexible:
         from job_shop_lib.constraint_programming import ORToolsSolver
         try:
